@@ -277,6 +277,7 @@ def concrete(ctx, rep, prog, key, fn, pick, required):
     chunks = [cases[i:i + n] for i in range(0, len(cases), n)]
     with mp.get_context("fork").Pool(procs) as pool:
         res = pool.map(_concrete_worker, chunks)
+    kinds, more = {}, 0
     for part in res:
         for row in part:
             st = row[0]
@@ -284,12 +285,19 @@ def concrete(ctx, rep, prog, key, fn, pick, required):
                 rep.inconc("%s: %s" % (rule, row[1][0]), row[1][1])
                 continue
             rep.path((rule, row[4]))
+            if st not in ("ok",):
+                kinds[(st, row[1] if st != "panic" else "")] = kinds.get((st, row[1] if st != "panic" else ""), 0) + 1
+                if kinds[(st, row[1] if st != "panic" else "")] > 6:
+                    more += 1
+                    continue
             if st == "panic":
                 rep.fail(rule, "%s|%s|%s panic" % (key, rule, row[2]), "panics: %s (%s)" % (row[1], row[3]))
             elif st == "ok":
                 rep.ok(rule)
             else:
                 rep.fail(rule, "%s|%s|%s|%s" % (key, rule, row[2], row[1]), "%s: %s" % (row[1], row[3]), where=row[5])
+    if more:
+        rep.notes.append("%s: %d further failing rows of the kinds already reported are not listed one by one" % (rule, more))
     rep.analysed_item("%s interpreted on %d (real range, structured slice) cases" % (key, len(cases)))
 
 
